@@ -20,7 +20,9 @@ from fim.graph.networkx_property_graph_disjoint import (NetworkXGraphStorageDisj
 
 SHARED = NetworkXGraphStorage._NetworkXGraphStorage__NetworkXGraphStorage
 DISJOINT = NetworkXGraphStorageDisjoint._NetworkXGraphStorageDisjoint__NetworkXGraphStorage
-K = 3
+import os as _os
+# stores of at most K nodes: 3 in the quick tier, 4 in the thorough tier (pyvc.report sets VERIF_GRAPH_K)
+K = int(_os.environ.get('VERIF_GRAPH_K', '3'))
 BOUND = f'stores with at most {K} nodes spread over two graph ids; NodeID / Class / Type / property values and edge classes symbolic'
 
 
